@@ -573,6 +573,8 @@ func TestVerif_C61(t *testing.T) {
 	r.Require("adds_out_of_order_merged", 5000)
 	r.Require("adds_into_pending_bucket", 2000)
 	r.Require("adds_older_than_every_window", 300)
+	r.Require("latest_advanced_levels", 500)
+	r.Require("adds_behind_advanced_levels", 300) // pendingTime < t <= levels[0].end-1s: the history behind key add-behind-advanced-levels-filed-in-newest-bucket
 	r.Require("level0_window_jumped_over", 2000)
 	r.Require("level9_window_jumped_over", 50)
 }
